@@ -33,6 +33,7 @@ REQUIRE = {
     "operand_sequence:reversed": 500,
     "operand_sequence:tuple": 500,
     "popup_compared": 50,
+    "malformed_utf8_cases": 100,
 }
 RULE = (
     "random expression trees (depth<=4 quick, <=7 thorough; root size 1..14 cols x 1..7 rows) over leaves TextCanvas "
@@ -51,6 +52,7 @@ ASSUMES = [
     "zero-width characters belong to the cell of the character before them, carry its attribute and charset flag, and no row starts with one",
     "a content_delta row that is a bare integer n means 'n columns unchanged' (leaf canvases compared with themselves answer that way)",
     "the top canvas handed to CanvasOverlay is a CompositeCanvas, as every in-tree caller does",
+    "in UTF-8 mode a byte that does not start a well-formed character (lone continuation or lead byte, truncated, over-long, above U+10FFFF; one fragment at a time, surrogate forms not generated) is one cell of its own, as str_util documents for invalid sequences",
     "operations outside their domain (unequal widths in a stack, overlay not inside, trims leaving nothing) are not generated",
 ]
 
@@ -70,14 +72,28 @@ ZERO = "́̀"
 MULTI1 = "éß"  # multi-byte, single width
 EMOJI = "😀"
 DECALT = "qxlkmj"
+RAWMARK = "\ue000"  # item "char" = RAWMARK + latin-1 image of bytes that are NOT well-formed utf-8: one cell per byte
+MALFORMED = [
+    b"\x80",  # lone continuation byte
+    b"\xc3",  # lone lead byte
+    b"\xe3\x81",  # truncated 3-byte form
+    b"\xf4\x90\x80\x80",  # 4-byte form just above U+10FFFF
+    b"\xf4\xbf\xbf\xbf",
+    b"\xf5\x80\x80\x80",  # lead byte beyond F4
+    b"\xf0\x80\x80\x80",  # over-long
+    b"\xe0\x80\x80",
+    b"\xc0\x80",
+    b"\xff",
+]
 
 
 # ---------------------------------------------------------------- generator
 
 
-def gen_row(rng, mode, width):
+def gen_row(rng, mode, width, malformed=False):
     """list of [char, attr, cs] whose display width is <= width (may be shorter)"""
     items = []
+    lastraw = False
     target = width if rng.random() < 0.7 else rng.randint(0, width)
     w = 0
     a = rng.choice(ATTRS)
@@ -87,6 +103,15 @@ def gen_row(rng, mode, width):
             a = rng.choice(ATTRS)
         r = rng.random()
         cs = None
+        if malformed and not lastraw and rng.random() < 0.18:
+            frag = rng.choice(MALFORMED)
+            if len(frag) <= target - w:
+                # never two fragments in a row: their concatenation could be a well-formed character
+                items.append([RAWMARK + frag.decode("latin-1"), a, None])
+                w += len(frag)
+                lastraw = True
+                continue
+        lastraw = False
         if mode != "narrow" and r < 0.3 and target - w >= 2:
             ch, cw = rng.choice(WIDE), 2
             if mode == "utf8" and rng.random() < 0.1:
@@ -111,6 +136,7 @@ class Gen:
         self.maxdepth = maxdepth
         self.next_id = 0
         self.cursor_p = 0.25
+        self.malformed = False
 
     def nid(self):
         self.next_id += 1
@@ -125,7 +151,7 @@ class Gen:
             "op": "text",
             "id": self.nid(),
             "cols": cols,
-            "rows": [gen_row(rng, self.mode, cols) for _ in range(rows)],
+            "rows": [gen_row(rng, self.mode, cols, self.malformed) for _ in range(rows)],
             "fin": int(rng.random() < 0.5),
         }
         if rng.random() < self.cursor_p:
@@ -248,7 +274,15 @@ def count_ops(n):
 
 
 def enc(ch, mode):
+    if ch[:1] == RAWMARK:
+        return ch[1:].encode("latin-1")
     return ch.encode(MODES[mode])
+
+
+def item_cells(ch, a, cs, mode):
+    if ch[:1] == RAWMARK:
+        return [(bytes([b]), 1, a, cs) for b in enc(ch, mode)]
+    return [(enc(ch, mode), (G.char_width(ch) if mode == "utf8" else len(enc(ch, mode))), a, cs)]
 
 
 def model_eval(n, mode) -> G.Grid:
@@ -256,7 +290,7 @@ def model_eval(n, mode) -> G.Grid:
     if op == "text":
         rows = []
         for r in n["rows"]:
-            items = [(enc(ch, mode), (G.char_width(ch) if mode == "utf8" else len(enc(ch, mode))), a, cs) for ch, a, cs in r]
+            items = [cell for ch, a, cs in r for cell in item_cells(ch, a, cs, mode)]
             items += G.blank_row(n["cols"] - G.row_width(items))
             rows.append(items)
         g = G.Grid(n["cols"], rows)
@@ -658,6 +692,8 @@ def shrink(ctx, desc, mode, sig, fn):
         improved = False
         for v in variants(cur["tree"]):
             d = {"mode": cur["mode"], "tree": v}
+            if cur.get("malformed"):
+                d["malformed"] = True
             if len(json.dumps(d)) < len(json.dumps(cur)) and still(d):
                 cur = d
                 improved = True
@@ -741,10 +777,16 @@ def mutate_op(rng, tree, mode):
 
 def run_case(ctx, desc, fn):
     mode = desc["mode"]
-    res = fn(ctx, desc, mode)
-    for sig, msg in res:
-        small = shrink(ctx, desc, mode, sig, fn)
-        ctx.violation(f"{sig}|{mode}", msg, small)
+    G.set_lenient(bool(desc.get("malformed")))
+    try:
+        res = fn(ctx, desc, mode)
+        if desc.get("malformed"):
+            ctx.count("malformed_utf8_cases")
+        for sig, msg in res:
+            small = shrink(ctx, desc, mode, sig, fn)
+            ctx.violation(f"{sig}|{mode}" + ("|malformed-utf8-bytes" if desc.get("malformed") else ""), msg, small)
+    finally:
+        G.set_lenient(False)
     return res
 
 
@@ -776,8 +818,11 @@ def run(ctx):
             k += 1
             gen = Gen(rng, mode, rng.randint(1, maxdepth))
             cols, rows = rng.randint(1, 14), rng.randint(1, 7)
+            gen.malformed = mode == "utf8" and k % 8 == 4
             tree = gen.tree(cols, rows)
             desc = {"mode": mode, "tree": tree}
+            if gen.malformed:
+                desc["malformed"] = True
             run_case(ctx, desc, judge)
             ctx.case((mode, json.dumps(tree, sort_keys=True)), nontrivial=count_ops(tree) > 0)
             ctx.count(f"mode:{mode}")
@@ -799,12 +844,17 @@ def run(ctx):
             elif r < 0.75:
                 g2 = Gen(rng, mode, rng.randint(1, maxdepth))
                 g2.next_id = 20000
+                g2.malformed = gen.malformed
                 t2 = g2.tree(cols, rows)
                 ctx.count("delta_kind:unrelated")
             else:
                 continue
-            run_case(ctx, {"mode": mode, "tree": tree, "tree2": t2}, judge_delta)
+            d2 = {"mode": mode, "tree": tree, "tree2": t2}
+            if gen.malformed:
+                d2["malformed"] = True
+            run_case(ctx, d2, judge_delta)
     finally:
+        G.set_lenient(False)
         urwid.util.set_encoding(old_enc)
     for kind, cnt in Real.seq_counts.items():
         ctx.count(f"operand_sequence:{kind}", cnt)
@@ -817,8 +867,10 @@ def replay(ctx, wit):
     old_enc = urwid.util.get_encoding()
     try:
         set_mode(wit["mode"])
+        G.set_lenient(bool(wit.get("malformed")))
         fn = judge_delta if "tree2" in wit else judge
         for sig, msg in fn(ctx, wit, wit["mode"]):
-            ctx.violation(f"{sig}|{wit['mode']}", msg, wit)
+            ctx.violation(f"{sig}|{wit['mode']}" + ("|malformed-utf8-bytes" if wit.get("malformed") else ""), msg, wit)
     finally:
+        G.set_lenient(False)
         urwid.util.set_encoding(old_enc)
